@@ -293,13 +293,12 @@ func runC11(c *mon.Ctx) {
 	c.Stratum("sets", c.N(4000, 60000), func(k *mon.Case) {
 		r := k.Rng
 		n := 1 + r.IntN(60)
-		big := false
 		switch r.IntN(20) {
 		case 0:
 			n = 1
 		case 1:
 			n = 300 + r.IntN(600)
-			big = true
+
 		case 2:
 			n = 255 + r.IntN(3)
 		}
@@ -342,172 +341,58 @@ func runC11(c *mon.Ctx) {
 				k.DistinctBytes(g.raw())
 			}
 		}
-		_ = big
-		for f, cnt := range forms {
-			k.ClassN("form:"+f, cnt)
-		}
-		in := make(glyf.Glyphs, n)
-		want := make(glyf.Glyphs, n)
-		for i, g := range gs {
-			in[i] = g.lib()
-			want[i] = g.normal()
-		}
-		desc := func() string { return fmt.Sprintf("set of %d glyphs, %d raw bytes", n, total) }
+		c11check(c, k, gs, forms, total)
+	})
 
-		// (a) library encode -> independent loca check -> library decode
-		var enc *glyf.Encoded
-		if k.Guard("glyf.Encode", func() { enc = in.Encode() }) {
-			return
+	// exact table sizes around the loca format limits
+	sizes := []int{65530, 65532, 65534, 65536, 65538, 65540, 131066, 131068, 131070, 131072, 131074, 131076, 131078, 140000}
+	c.Stratum("size-boundaries", len(sizes)*4, func(k *mon.Case) {
+		r := k.Rng
+		target := sizes[k.Index%len(sizes)]
+		forms := glyfref.Forms{}
+		var gs []*c11glyph
+		total := 0
+		add := func(g *c11glyph) {
+			gs = append(gs, g)
+			n := len(g.raw())
+			total += n + n%2
 		}
-		k.Eval()
-		offs := checkLoca(k, enc, n)
-		switch {
-		case len(enc.GlyfData) <= 0xFFFF:
-			k.Class("size<=65535")
-		case len(enc.GlyfData) <= 131070:
-			k.Class("size 65536..131070")
-		default:
-			k.Class("size>131070")
+		// a few ordinary glyphs, then zero-contour glyphs whose instruction
+		// lengths are chosen so that the glyf table has exactly the target size
+		for i := 0; i < 1+r.IntN(4); i++ {
+			g := &c11glyph{kind: 1}
+			g.simple, g.body = c11simple(r, forms)
+			g.nc = int16(len(g.simple.Contours))
+			if llx, lly, urx, ury, ok := g.simple.Bounds(); ok {
+				g.box = funit.Rect16{LLx: funit.Int16(llx), LLy: funit.Int16(lly), URx: funit.Int16(urx), URy: funit.Int16(ury)}
+			}
+			add(g)
 		}
-		var back glyf.Glyphs
-		var err error
-		if k.Guard("glyf.Decode", func() { back, err = glyf.Decode(enc) }) {
-			return
-		}
-		if err != nil {
-			k.Fail("mismatch", "roundtrip:decode-error", "glyf.Decode(Encode(G)): %v\n%s", err, desc())
-			return
-		}
-		if len(back) != n {
-			k.Fail("mismatch", "roundtrip:count", "%d glyphs came back, want %d", len(back), n)
-			return
-		}
-		for i := range back {
-			if !glyphEqual(back[i], want[i]) {
-				k.Fail("mismatch", fmt.Sprintf("roundtrip:glyph-differs:kind%d", gs[i].kind), "glyph %d (kind %d, pad %d) differs after Encode/Decode:\n got %+v\nwant %+v", i, gs[i].kind, gs[i].pad, back[i], want[i])
+		for total < target {
+			rest := target - total
+			l := rest - 12
+			if l > 60000 {
+				l = 60000 - 2*r.IntN(1000)
+			}
+			if l < 0 || l%2 != 0 {
 				break
 			}
-			if offs != nil && (back[i] == nil) != (offs[i] == offs[i+1]) {
-				k.Fail("mismatch", "loca:empty-glyph", "glyph %d nil=%v but loca span %d", i, back[i] == nil, offs[i+1]-offs[i])
+			sg := &glyfref.Simple{Instructions: make([]byte, l)}
+			for i := range sg.Instructions {
+				sg.Instructions[i] = byte(r.Uint32())
 			}
+			add(&c11glyph{kind: 1, simple: sg, body: glyfref.Encode(sg, nil, nil)})
 		}
-
-		// (b) harness-written glyf/loca in both formats -> library decode
-		var glyfData []byte
-		hoffs := make([]int, n+1)
-		for i, g := range gs {
-			glyfData = append(glyfData, g.raw()...)
-			if len(glyfData)%2 != 0 {
-				glyfData = append(glyfData, 0)
-			}
-			if r.IntN(8) == 0 && g.kind != 0 {
-				glyfData = append(glyfData, 0, 0) // 4-byte style padding inside the glyph's span
-			}
-			hoffs[i+1] = len(glyfData)
+		if total != target {
+			k.Skip("size-boundary-not-hit")
+			return
 		}
-		for format := int16(0); format <= 1; format++ {
-			if format == 0 && len(glyfData) > 131070 {
-				continue
-			}
-			var loca []byte
-			for _, o := range hoffs {
-				if format == 0 {
-					loca = binary.BigEndian.AppendUint16(loca, uint16(o/2))
-				} else {
-					loca = binary.BigEndian.AppendUint32(loca, uint32(o))
-				}
-			}
-			henc := &glyf.Encoded{GlyfData: glyfData, LocaData: loca, LocaFormat: format}
-			var dec glyf.Glyphs
-			if k.Guard("glyf.Decode", func() { dec, err = glyf.Decode(henc) }) {
-				return
-			}
-			k.Eval()
-			if err != nil {
-				k.Fail("mismatch", "spec-bytes:decode-error", "glyf.Decode of harness-written tables (loca format %d): %v\n%s", format, err, desc())
-				return
-			}
-			for i := range dec {
-				if !glyphEqual(dec[i], want[i]) {
-					k.Fail("mismatch", fmt.Sprintf("spec-bytes:glyph-differs:kind%d", gs[i].kind), "glyph %d (kind %d, pad %d) decoded from harness-written bytes differs:\n got %+v\nwant %+v", i, gs[i].kind, gs[i].pad, dec[i], want[i])
-					break
-				}
-			}
-			k.Class(fmt.Sprintf("harness-loca-format-%d", format))
+		if k.Index/len(sizes)%2 == 1 {
+			gs = append(gs, &c11glyph{}) // trailing empty glyph
 		}
-
-		// (c) point decoding, components
-		perm := map[glyph.ID]glyph.ID{}
-		for i, p := range r.Perm(n) {
-			perm[glyph.ID(i)] = glyph.ID(p)
-		}
-		for i, g := range back {
-			src := gs[i]
-			switch src.kind {
-			case 1:
-				sg := g.Data.(glyf.SimpleGlyph)
-				var info *glyf.GlyphInfo
-				var derr error
-				if k.Guard("SimpleGlyph.Decode", func() { info, derr = sg.Decode() }) {
-					return
-				}
-				k.Eval()
-				if derr != nil {
-					k.Fail("mismatch", "points:decode-error", "SimpleGlyph.Decode: %v (glyph %d, %d contours)", derr, i, src.nc)
-					return
-				}
-				ref, used, rerr := glyfref.Decode(int(src.nc), src.body)
-				if rerr != nil || used != len(src.body) {
-					k.Fail("mismatch", "harness:glyfref-self-check", "glyfref cannot decode its own encoding: %v used=%d len=%d", rerr, used, len(src.body))
-					return
-				}
-				if !c11samePoints(info, ref) || !c11samePoints(info, src.simple) {
-					k.Fail("mismatch", "points:differ", "glyph %d: points from SimpleGlyph.Decode differ from the generated glyph\n lib: %+v\n ref: %+v", i, info, src.simple)
-					return
-				}
-				k.Class("simple-decoded")
-				if i < 2 && k.Index < 2 {
-					k.Sample(fmt.Sprintf("simple glyph: %d contours, body %x…", src.nc, src.body[:min(len(src.body), 24)]))
-				}
-			case 2:
-				comps := g.Components()
-				k.Eval()
-				if len(comps) != len(src.comps) {
-					k.Fail("mismatch", "components:count", "Components() has %d entries, want %d", len(comps), len(src.comps))
-					return
-				}
-				for j := range comps {
-					if uint16(comps[j]) != src.comps[j].Gid {
-						k.Fail("mismatch", "components:gid", "Components()[%d]=%d want %d", j, comps[j], src.comps[j].Gid)
-						return
-					}
-				}
-				before := src.raw()
-				g2 := g.FixComponents(perm)
-				if !glyphEqual(g, want[i]) {
-					k.Fail("mismatch", "fixcomponents:receiver-changed", "FixComponents modified its receiver (glyph %d)", i)
-					return
-				}
-				exp := *src
-				exp.comps = append([]glyfref.Component{}, src.comps...)
-				for j := range exp.comps {
-					exp.comps[j].Gid = uint16(perm[glyph.ID(exp.comps[j].Gid)])
-				}
-				one := glyf.Glyphs{g2}.Encode()
-				wantBytes := exp.raw()
-				if len(wantBytes)%2 != 0 {
-					wantBytes = append(wantBytes, 0)
-				}
-				if !bytes.Equal(one.GlyfData, wantBytes) {
-					k.Fail("mismatch", "fixcomponents:bytes", "FixComponents: re-encoded glyph differs from the expected record\n got %x\nwant %x\n was %x", one.GlyfData, wantBytes, before)
-					return
-				}
-				k.Class("composite-checked")
-			}
-		}
-		if g := (*glyf.Glyph)(nil); g.Components() != nil || g.FixComponents(perm) != nil {
-			k.Fail("mismatch", "components:nil-glyph", "nil glyph has components")
-		}
+		k.Class(fmt.Sprintf("exact-glyf-size=%d", target))
+		k.Distinct("size-boundary", target, len(gs), k.Index)
+		c11check(c, k, gs, forms, total)
 	})
 	req := []string{"zero-contour-glyph", "simple-decoded", "composite-checked", "loca-format-0", "loca-format-1",
 		"harness-loca-format-0", "harness-loca-format-1", "composite:instructions", "composite:no-instructions",
@@ -517,6 +402,9 @@ func runC11(c *mon.Ctx) {
 			req = append(req, "form:"+a+"-"+f)
 		}
 	}
+	for _, sz := range []int{65534, 65536, 131070, 131072, 131074} {
+		req = append(req, fmt.Sprintf("exact-glyf-size=%d", sz))
+	}
 	for w := 0; w < 2; w++ {
 		for xy := 0; xy < 2; xy++ {
 			for t := 0; t < 4; t++ {
@@ -525,6 +413,177 @@ func runC11(c *mon.Ctx) {
 		}
 	}
 	c.Require(req...)
+}
+
+// c11check runs all C11 clauses on one glyph set.
+func c11check(c *mon.Ctx, k *mon.Case, gs []*c11glyph, forms glyfref.Forms, total int) {
+	r := k.Rng
+	n := len(gs)
+	for f, cnt := range forms {
+		k.ClassN("form:"+f, cnt)
+	}
+	in := make(glyf.Glyphs, n)
+	want := make(glyf.Glyphs, n)
+	for i, g := range gs {
+		in[i] = g.lib()
+		want[i] = g.normal()
+	}
+	desc := func() string { return fmt.Sprintf("set of %d glyphs, %d raw bytes", n, total) }
+
+	// (a) library encode -> independent loca check -> library decode
+	var enc *glyf.Encoded
+	if k.Guard("glyf.Encode", func() { enc = in.Encode() }) {
+		return
+	}
+	k.Eval()
+	offs := checkLoca(k, enc, n)
+	switch {
+	case len(enc.GlyfData) <= 0xFFFF:
+		k.Class("size<=65535")
+	case len(enc.GlyfData) <= 131070:
+		k.Class("size 65536..131070")
+	default:
+		k.Class("size>131070")
+	}
+	var back glyf.Glyphs
+	var err error
+	if k.Guard("glyf.Decode", func() { back, err = glyf.Decode(enc) }) {
+		return
+	}
+	if err != nil {
+		k.Fail("mismatch", "roundtrip:decode-error", "glyf.Decode(Encode(G)): %v\n%s", err, desc())
+		return
+	}
+	if len(back) != n {
+		k.Fail("mismatch", "roundtrip:count", "%d glyphs came back, want %d", len(back), n)
+		return
+	}
+	for i := range back {
+		if !glyphEqual(back[i], want[i]) {
+			k.Fail("mismatch", fmt.Sprintf("roundtrip:glyph-differs:kind%d", gs[i].kind), "glyph %d (kind %d, pad %d) differs after Encode/Decode:\n got %+v\nwant %+v", i, gs[i].kind, gs[i].pad, back[i], want[i])
+			break
+		}
+		if offs != nil && (back[i] == nil) != (offs[i] == offs[i+1]) {
+			k.Fail("mismatch", "loca:empty-glyph", "glyph %d nil=%v but loca span %d", i, back[i] == nil, offs[i+1]-offs[i])
+		}
+	}
+
+	// (b) harness-written glyf/loca in both formats -> library decode
+	var glyfData []byte
+	hoffs := make([]int, n+1)
+	for i, g := range gs {
+		glyfData = append(glyfData, g.raw()...)
+		if len(glyfData)%2 != 0 {
+			glyfData = append(glyfData, 0)
+		}
+		if r.IntN(8) == 0 && g.kind != 0 {
+			glyfData = append(glyfData, 0, 0) // 4-byte style padding inside the glyph's span
+		}
+		hoffs[i+1] = len(glyfData)
+	}
+	for format := int16(0); format <= 1; format++ {
+		if format == 0 && len(glyfData) > 131070 {
+			continue
+		}
+		var loca []byte
+		for _, o := range hoffs {
+			if format == 0 {
+				loca = binary.BigEndian.AppendUint16(loca, uint16(o/2))
+			} else {
+				loca = binary.BigEndian.AppendUint32(loca, uint32(o))
+			}
+		}
+		henc := &glyf.Encoded{GlyfData: glyfData, LocaData: loca, LocaFormat: format}
+		var dec glyf.Glyphs
+		if k.Guard("glyf.Decode", func() { dec, err = glyf.Decode(henc) }) {
+			return
+		}
+		k.Eval()
+		if err != nil {
+			k.Fail("mismatch", "spec-bytes:decode-error", "glyf.Decode of harness-written tables (loca format %d): %v\n%s", format, err, desc())
+			return
+		}
+		for i := range dec {
+			if !glyphEqual(dec[i], want[i]) {
+				k.Fail("mismatch", fmt.Sprintf("spec-bytes:glyph-differs:kind%d", gs[i].kind), "glyph %d (kind %d, pad %d) decoded from harness-written bytes differs:\n got %+v\nwant %+v", i, gs[i].kind, gs[i].pad, dec[i], want[i])
+				break
+			}
+		}
+		k.Class(fmt.Sprintf("harness-loca-format-%d", format))
+	}
+
+	// (c) point decoding, components
+	perm := map[glyph.ID]glyph.ID{}
+	for i, p := range r.Perm(n) {
+		perm[glyph.ID(i)] = glyph.ID(p)
+	}
+	for i, g := range back {
+		src := gs[i]
+		switch src.kind {
+		case 1:
+			sg := g.Data.(glyf.SimpleGlyph)
+			var info *glyf.GlyphInfo
+			var derr error
+			if k.Guard("SimpleGlyph.Decode", func() { info, derr = sg.Decode() }) {
+				return
+			}
+			k.Eval()
+			if derr != nil {
+				k.Fail("mismatch", "points:decode-error", "SimpleGlyph.Decode: %v (glyph %d, %d contours)", derr, i, src.nc)
+				return
+			}
+			ref, used, rerr := glyfref.Decode(int(src.nc), src.body)
+			if rerr != nil || used != len(src.body) {
+				k.Fail("mismatch", "harness:glyfref-self-check", "glyfref cannot decode its own encoding: %v used=%d len=%d", rerr, used, len(src.body))
+				return
+			}
+			if !c11samePoints(info, ref) || !c11samePoints(info, src.simple) {
+				k.Fail("mismatch", "points:differ", "glyph %d: points from SimpleGlyph.Decode differ from the generated glyph\n lib: %+v\n ref: %+v", i, info, src.simple)
+				return
+			}
+			k.Class("simple-decoded")
+			if i < 2 && k.Index < 2 {
+				k.Sample(fmt.Sprintf("simple glyph: %d contours, body %x…", src.nc, src.body[:min(len(src.body), 24)]))
+			}
+		case 2:
+			comps := g.Components()
+			k.Eval()
+			if len(comps) != len(src.comps) {
+				k.Fail("mismatch", "components:count", "Components() has %d entries, want %d", len(comps), len(src.comps))
+				return
+			}
+			for j := range comps {
+				if uint16(comps[j]) != src.comps[j].Gid {
+					k.Fail("mismatch", "components:gid", "Components()[%d]=%d want %d", j, comps[j], src.comps[j].Gid)
+					return
+				}
+			}
+			before := src.raw()
+			g2 := g.FixComponents(perm)
+			if !glyphEqual(g, want[i]) {
+				k.Fail("mismatch", "fixcomponents:receiver-changed", "FixComponents modified its receiver (glyph %d)", i)
+				return
+			}
+			exp := *src
+			exp.comps = append([]glyfref.Component{}, src.comps...)
+			for j := range exp.comps {
+				exp.comps[j].Gid = uint16(perm[glyph.ID(exp.comps[j].Gid)])
+			}
+			one := glyf.Glyphs{g2}.Encode()
+			wantBytes := exp.raw()
+			if len(wantBytes)%2 != 0 {
+				wantBytes = append(wantBytes, 0)
+			}
+			if !bytes.Equal(one.GlyfData, wantBytes) {
+				k.Fail("mismatch", "fixcomponents:bytes", "FixComponents: re-encoded glyph differs from the expected record\n got %x\nwant %x\n was %x", one.GlyfData, wantBytes, before)
+				return
+			}
+			k.Class("composite-checked")
+		}
+	}
+	if g := (*glyf.Glyph)(nil); g.Components() != nil || g.FixComponents(perm) != nil {
+		k.Fail("mismatch", "components:nil-glyph", "nil glyph has components")
+	}
 }
 
 func c11samePoints(info *glyf.GlyphInfo, ref *glyfref.Simple) bool {
